@@ -121,6 +121,23 @@ def check_operator_families(F, run, tier):
                         run.check(res.get("tolerance") == tolA, "R11.1", dp, "keeps-tolerance:" + inst, where,
                                   "result's zero tolerance is %s, not the left operand's" % res.get("tolerance"))
                     run.check(len(cs) >= 1, "R11.6", dp, "non-empty:" + inst, where, "result has an empty coefficient vector")
+            if scalar:
+                # complex field: coefficients and scalar with generic real and imaginary parts (a conjugate slipped in or left out is invisible over the reals)
+                ac = PI.csymbols("a", 2)
+                sc = sp.Symbol("sr", real=True) + sp.I * sp.Symbol("si", real=True)
+                A = PI.poly(ac, tolA)
+                want = {"Add": [ac[0] + sc] + ac[1:], "Sub": [ac[0] - sc] + ac[1:], "Mul": [x * sc for x in ac], "Div": [x / sc for x in ac]}[op]
+                try:
+                    v, it = PI.call(F, body, [A, sc], hook=hook_complex)
+                    res = A if assign else v
+                    cs = PI.coeffs(res)
+                    run.check(PI.same_poly(cs, want), "R11.1", dp, "algebra:complex-scalar", where,
+                              "with complex coefficients and a complex scalar the result %s differs from coefficient algebra %s"
+                              % ([str(sp.simplify(x)) for x in cs][:3], [str(sp.simplify(x)) for x in want][:3]), sample="%s complex scalar" % dp)
+                except vecint.IndexPanic as e:
+                    run.fail("R11.1", dp, "panic:complex-scalar", where, "abstract execution panics: %s" % e.why)
+                except (sym.Unsupported, Missing) as u:
+                    run.broken("R11.1", dp, "complex-scalar", where, "outside the evaluated sub-language: %s" % u)
     run.floor("R11.1", "polynomial", "operator impls evaluated", total, 32)
 
 
